@@ -430,6 +430,7 @@ var commonAssumptions = []string{
 func c03AckAlphabet() []SeqOp {
 	return []SeqOp{
 		op(0, withEF(L(0, 1, 1, 0, 30, 0, 2), efZeroAof)),          // persisted at once, no acknowledgement asked
+		op(0, L(0, 1, 1, 0, 30, 0, 2)),                             // persisted after the default delay
 		op(0, withTF(L(0, 1, 1, 2, 30, 0, 2), tfAck)),              // first lock or re-entrant lock
 		op(0, withF(withTF(L(0, 1, 1, 2, 40, 0, 2), tfAck), 0x02)), // update of the hold's terms
 		op(1, withTF(L(0, 1, 2, 2, 30, 1, 0), tfAck)),              // another LockId (waits behind id 1)
